@@ -178,8 +178,8 @@ def write_evidence(prop, tier, seed, level, result, wall_s, n_viol, n_known):
     coverage["caps_hit"] = cov.caps_hit
     coverage["bounds"] = result.bounds
     coverage["distinct_outcomes"] = cov.outcomes
-    coverage.setdefault("evaluations", coverage.get("transitions", 0))
-    coverage.setdefault("distinct_nontrivial", coverage.get("states", 0))
+    # (no key is ever filled in from another key: a model_checking record without measured evaluations /
+    # distinct_nontrivial simply does not carry them)
     for k, v in cov.extra.items():
         coverage.setdefault(k, v)
     ev = {
